@@ -7,6 +7,9 @@ VARIABLES k, pc
 vars == <<k, pc>>
 
 Range(s) == {s[i] : i \in 1..Len(s)}
+\* here (and only here, and in the complete validation of the lexical trace) the whole universe is materialised
+\* (`\o` turns the lazy function expression into an evaluated tuple: every case is derived exactly once)
+Cases == [i \in 1..NCases |-> CaseAt(i)] \o <<>>
 Ids == {Cases[i].id : i \in 1..NCases}
 Contains(t, w) == \E i \in 1..(Len(t) - Len(w) + 1) : SubSeq(t, i, i + Len(w) - 1) = w
 
@@ -36,6 +39,11 @@ ASSUME CellsInhabited ==
     /\ \A d \in Range(DeadTransfers), kd \in Range(DeadKinds), w \in Range(DeadWraps), bk \in Range(DeadBlocks) :
           (Thorough \/ w = "top" \/ bk = "plain") => Cell("dead", d.cls \o "/" \o kd, w \o "/" \o bk, 0) \in Ids
     /\ Thorough => \A c1 \in Range(UOperands), c2 \in Range(UOperands) : Cell("unused2", c1.cls, c2.cls, 0) \in Ids
+    /\ \A t \in Range(CxTransfers), f \in Range(CxForms), st \in Range(CxSites), lp \in Range(CxLoops), w \in Range(CxContexts) :
+          (Thorough \/ CxInQuick(<<<<t, f>>, <<<<st, lp>>, w>>>>)) => Cell("ctlx", t \o "/" \o f, st \o "/" \o lp \o "/" \o w, 0) \in Ids
+    /\ \A ch \in Range(ScChars), f \in Range(ScFollows), p \in Range(ScPositions), st \in Range(ScSites) :
+          (Thorough \/ ScInQuick(<<<<ch, f>>, <<p, st>>>>)) => Cell("strc", ch.cls \o "/" \o f, p \o "/" \o st, 0) \in Ids
+    /\ \A kd \in Range(WideKinds), n \in Range(WideNs) : Cell("wide", kd, "n" \o Num(n), n) \in Ids
     /\ Len(UOperands) >= 50
 \* the spelling / literal under test really occurs in the program text
 ASSUME SpellingOccurs ==
@@ -43,6 +51,19 @@ ASSUME SpellingOccurs ==
     /\ \A sp \in Range(UpperSpell), st \in Range(UpperSites) : Contains(CNameText(st, sp.nm), sp.nm)
     /\ \A c \in Range(StrContents), st \in Range(StrSites) \ {"require-arg"} : Contains(StrText(st, c.s), Q(c.s))
     /\ \A c \in Range(NumLits), st \in Range(NumSites) : Contains(NumText(st, c.s), c.s)
+    /\ \A ch \in Range(ScChars), f \in Range(ScFollows), p \in Range(ScPositions), st \in Range(ScSites) :
+          Contains(ScProg(st, ScContent(ch, f, p)).text, Q(ScContent(ch, f, p)))
+\* round 3: the byte expectations are well-formed (only the string-content family has them, never for a content with a
+\* backslash; an expectation is the literal's content, once, followed by the line `1`), the control-character rows are
+\* the C0 set + DEL + C1 / separator samples, widths straddle 12 / 13
+ASSUME ExpectSane ==
+    /\ \A i \in 1..NCases : Cases[i].expect # "-" => Cases[i].id.fam = "strc" /\ ~Contains(Cases[i].files[1].text, BS)
+    /\ \A ch \in Range(ScChars), f \in Range(ScFollows), p \in Range(ScPositions), st \in Range(ScSites) :
+          ~ScHasBs(f, p) => Contains(ScExpect(st, ch, f, p), ScContent(ch, f, p) \o (IF st = "concat" THEN ">" ELSE "") \o LF \o "1" \o LF)
+    /\ \E i \in 1..NCases : Cases[i].expect # "-"
+    /\ {"nul", "bel", "esc", "us", "del", "tab", "lf", "cr"} \subseteq {ch.cls : ch \in Range(ScChars)}
+    /\ {"digit", "digits2", "letter", "end"} \subseteq Range(ScFollows)
+    /\ {12, 13} \subseteq Range(WideNs) /\ \E n \in Range(WideNs) : n >= 40
 \* size classes straddle Lua's static limits (200 locals, 255 upvalues, 200 levels)
 ASSUME SizesStraddle ==
     /\ \A g \in Range(SizeGrid) : \E n \in Range(g.ns) : n < 200
@@ -54,7 +75,7 @@ ASSUME SizesStraddle ==
 Init == pc = "start" /\ k \in 1..NCases
 Emit == /\ pc = "start" /\ pc' = "done" /\ k' = k
         /\ PrintT(<<"REPLAY", ToJson([idx |-> k, id |-> Cases[k].id, files |-> Cases[k].files, req |-> Cases[k].req,
-                                      must |-> Cases[k].must])>>)
+                                      must |-> Cases[k].must, expect |-> Cases[k].expect])>>)
 Next == Emit
 Spec == Init /\ [][Next]_vars
 TypeOk == pc \in {"start", "done"}
